@@ -142,14 +142,19 @@ Fixpoint take (n : nat) (l : bytes) : option (bytes * bytes) :=
 
 (* One record frame: the two freads at the top of the loop. *)
 Inductive frame_res :=
-| FEof    (* fread(&size) < 1 at end of file: 0..3 bytes left, feof() true, read_failed stays false *)
+| FEof    (* fread(&size, 1, 4, f) returns 0 at end of file: clean end *)
+| FTorn   (* ... returns 1..3 with feof() true: a record header torn inside its size word.
+             OLD code (before the fix "truncate a torn record header when loading the deps
+             log"): treated like FEof, the stray bytes stayed in the file.
+             Current code: torn_size_word = true, the file is truncated to [offset] after the
+             loop, silently, and loading continues normally *)
 | FFail   (* size > kMaxRecordSize, or fread(buf, size, 1, f) < 1 (size = 0 included: fread
              returns 0 for a zero size), read_failed = true *)
 | FRec (is_deps : bool) (size : N) (buf : bytes) (rest : bytes).
 
 Definition frame (x : bytes) : frame_res :=
   match rd32 x with
-  | None => FEof
+  | None => match x with [] => FEof | _ :: _ => FTorn end
   | Some (w, x1) =>
       let is_deps := two31 <=? w in          (* (size >> 31) != 0 *)
       let size := w mod two31 in             (* size & 0x7FFFFFFF *)
@@ -263,37 +268,48 @@ Definition l_add_deps (st : lstate) (o : N) (m : Z) (ins : list N) (size : N) : 
 Definition needs_recompaction (total unique : N) : bool :=
   (1000 <? total) && (unique * 3 <? total).
 
-Fixpoint load_loop (strict_align : bool) (fuel : nat) (st : lstate) (x : bytes) : dload :=
+Fixpoint load_loop (old strict_align : bool) (fuel : nat) (st : lstate) (x : bytes) : dload :=
   match fuel with
   | O => DFuel
   | S fuel' =>
       match frame x with
       | FEof => DOk (l_s st) None (needs_recompaction (l_total st) (l_unique st))
+      | FTorn =>
+          if old then DOk (l_s st) None (needs_recompaction (l_total st) (l_unique st))
+          else DOk (l_s st) (Some (N.to_nat (l_off st)))
+                   (needs_recompaction (l_total st) (l_unique st))
       | FFail => DOk (l_s st) (Some (N.to_nat (l_off st))) false
       | FRec is_deps size buf rest =>
           match decode strict_align (d_paths (l_s st)) is_deps size buf with
           | RFail => DOk (l_s st) (Some (N.to_nat (l_off st))) false
           | RUnsafe why => DUnsafe why
-          | RPath p => load_loop strict_align fuel' (l_add_path st p size) rest
-          | RDeps o m ins => load_loop strict_align fuel' (l_add_deps st o m ins size) rest
+          | RPath p => load_loop old strict_align fuel' (l_add_path st p size) rest
+          | RDeps o m ins => load_loop old strict_align fuel' (l_add_deps st o m ins size) rest
           end
       end
   end.
 
 Definition l_init : lstate := mkL d_empty 16 0 0.
 
-Definition load_deps_gen (strict_align : bool) (file : bytes) : dload :=
+(* [old = true]: the loader as it was before the torn-size-word fix (kept to document the
+   defect, see load_deps_old); [old = false]: the current code. *)
+Definition load_deps_ver (old strict_align : bool) (file : bytes) : dload :=
   match take 16 file with
   | None => DBadHeader
   | Some (h, x) =>
-      if bytes_eqb h deps_header then load_loop strict_align (S (length x)) l_init x
+      if bytes_eqb h deps_header then load_loop old strict_align (S (length x)) l_init x
       else DBadHeader
   end.
+
+Definition load_deps_gen (strict_align : bool) (file : bytes) : dload :=
+  load_deps_ver false strict_align file.
 
 (* The entry point: every undefined behaviour counts (UBSan alignment check included). *)
 Definition load_deps (file : bytes) : dload := load_deps_gen true file.
 (* What an x86 build without the alignment check does. *)
 Definition load_deps_x86 (file : bytes) : dload := load_deps_gen false file.
+(* The loader BEFORE the fix: 1-3 stray bytes of a size word at EOF are not truncated. *)
+Definition load_deps_old (file : bytes) : dload := load_deps_ver true true file.
 
 (* ------------------------------------------------------------------------------------ *)
 (* Writer                                                                               *)
@@ -441,9 +457,9 @@ Definition recompact (live : bytes -> bool) (s : dstate) : bytes :=
    it), the RecordDeps calls, Close (which creates the file with a header even when nothing
    was recorded).  Result = the file content afterwards.  When the C++ crashes (DUnsafe,
    CUnsafe) the file is left as it is at that moment. *)
-Definition session_gen (strict_align : bool) (live : bytes -> bool) (file : bytes)
+Definition session_ver (old strict_align : bool) (live : bytes -> bool) (file : bytes)
                        (ops : list dop) : bytes :=
-  match load_deps_gen strict_align file with
+  match load_deps_ver old strict_align file with
   | DUnsafe _ | DFuel => file
   | DBadHeader =>
       (* file unlinked; fopen("ab") creates it; ftell == 0: header *)
@@ -460,12 +476,20 @@ Definition session_gen (strict_align : bool) (live : bytes -> bool) (file : byte
         match run_ops s ops with (_, w, _) => base ++ w end
   end.
 
+Definition session_gen (strict_align : bool) (live : bytes -> bool) (file : bytes)
+                       (ops : list dop) : bytes :=
+  session_ver false strict_align live file ops.
+
 Definition session (live : bytes -> bool) (file : bytes) (ops : list dop) : bytes :=
   session_gen true live file ops.
 
 (* All recorded outputs still have a build statement with deps. *)
 Definition apply_ops (file : bytes) (ops : list dop) : bytes :=
   session (fun _ => true) file ops.
+
+(* A session of a ninja built before the torn-size-word fix. *)
+Definition apply_ops_old (file : bytes) (ops : list dop) : bytes :=
+  session_ver true true (fun _ => true) file ops.
 
 (* ninja -t recompact: Load then Recompact.  On a crash / failure of Recompact the (truncated)
    file stays.  Bad header: Load unlinks the file, Recompact writes <path>.recompact and then
